@@ -18,7 +18,7 @@ internals = {
 tos_ = reg("tos_", 24)
 tosl = slc(tos_, 0, 8, "tosl")
 tosh = slc(tos_, 8, 8, "tosh")
-tosu = slc(tos_, 16, 5, "tosu")
+tosu = slc(tos_, 16, 8, "tosu")
 tos = slc(tos_, 0, 21, "tosu")
 
 stkptr = reg("stkptr", 8)
